@@ -209,6 +209,147 @@ def _first_diff(a: bytes, b: bytes) -> int:
     return min(len(a), len(b))
 
 
+# ----------------------------------------------------------------------------------------------
+# layer "sync": blocking SSLStreamTransport over a real socketpair, single-threaded (selector-as-scheduler)
+
+
+@st.composite
+def st_sync_case(draw: st.DrawFn, tier: str) -> dict:
+    steps = draw(
+        st.lists(
+            st.tuples(st.sampled_from(["sut_send", "peer_send", "sut_recv"]), st.sampled_from([1, 7, 100, 1000, 16384, 16385, 40000])),
+            min_size=1,
+            max_size=8,
+        )
+    )
+    sizes = st.sampled_from([1, 7, 100, 1000, 16384, 16385, 40000])
+    if not any(op == "peer_send" for op, _ in steps) and draw(st.integers(0, 4)) > 0:
+        steps.insert(draw(st.integers(0, len(steps))), ("peer_send", draw(sizes)))
+    if not any(op == "sut_send" for op, _ in steps) and draw(st.integers(0, 4)) > 0:
+        steps.insert(draw(st.integers(0, len(steps))), ("sut_send", draw(sizes)))
+    return {
+        "sut_role": draw(st.sampled_from(["client", "server"])),
+        "version": draw(st.sampled_from(["1.2", "1.3"])),
+        "steps": steps,
+        "iterable": draw(st.booleans()),
+        "recv_mode": draw(st.sampled_from(["recv", "recv_into"])),
+        "recv_sizes": draw(st.lists(st.sampled_from([1, 7, 1024, 65536]), min_size=1, max_size=3)),
+        "frag_to_sut": draw(st.one_of(FRAGS, st.lists(st.sampled_from([1, 5, 64, 300]), min_size=1, max_size=4))),
+        "retry_interval": draw(st.sampled_from([0.5, "inf"])),
+    }
+
+
+def run_sync_case(case: dict) -> Outcome:
+    import math
+
+    from easynetwork.lowlevel.api_sync.transports.socket import SSLStreamTransport
+
+    from ..synctls import TLSPipe, selector_factory_for
+    from ..syncworld import HarnessHang, SpinGuard, World, virtual_clock
+
+    world = World()
+    peer = tlspeer.TLSPeer("server" if case["sut_role"] == "client" else "client", case["version"])
+    frag = case["frag_to_sut"]
+    total = sum(n for _, n in case["steps"])
+    if min(frag) < 40 and total > 20000:
+        frag = [5000]
+    pipe = TLSPipe(world, peer, frag)
+    ctx, kw = tlsharness.make_sut_kwargs(case["sut_role"], case["version"])
+    retry = math.inf if case["retry_interval"] == "inf" else float(case["retry_interval"])
+    sut_sent = bytearray()
+    peer_sent = bytearray()
+    received = bytearray()
+    transport = None
+    try:
+        with virtual_clock(world):
+            try:
+                transport = SSLStreamTransport(
+                    pipe.sut_sock, ctx, retry, handshake_timeout=1e7, shutdown_timeout=1e7, selector_factory=selector_factory_for(pipe), **kw
+                )
+                si = pi = 0
+
+                def read_until(target: int) -> None:
+                    sizes = case["recv_sizes"]
+                    i = 0
+                    while len(received) < target:
+                        size = sizes[i % len(sizes)]
+                        i += 1
+                        if case["recv_mode"] == "recv":
+                            data = transport.recv(size, math.inf)
+                        else:
+                            buf = bytearray(size)
+                            n = transport.recv_into(buf, math.inf)
+                            data = bytes(buf[:n])
+                        if not data:
+                            raise Violation("premature-eof", "blocking TLS recv returned EOF before all peer data arrived", got=len(received))
+                        if len(data) > size:
+                            raise Violation("recv-size", f"recv({size}) returned {len(data)} bytes")
+                        received.extend(data)
+
+                for op, n in case["steps"]:
+                    if op == "sut_send":
+                        data = tlspeer.payload("sut", si, n)
+                        si += 1
+                        sut_sent += data
+                        if case["iterable"]:
+                            third = max(1, n // 3)
+                            transport.send_all_from_iterable([data[:third], data[third:]], math.inf)
+                        else:
+                            transport.send_all(data, math.inf)
+                    elif op == "peer_send":
+                        data = tlspeer.payload("peer", pi, n)
+                        pi += 1
+                        peer_sent += data
+                        peer.write(data)
+                    else:
+                        read_until(len(peer_sent))
+                read_until(len(peer_sent))
+                for _ in range(200000):
+                    if not pipe.pump():
+                        break
+                transport.close()
+                for _ in range(1000):
+                    if not pipe.pump():
+                        break
+            except HarnessHang as exc:
+                raise Violation("deadlock", f"blocking TLS transport deadlocks: {exc}") from exc
+            except SpinGuard as exc:
+                raise Violation("deadlock", f"blocking TLS transport spins: {exc}") from exc
+        if peer.error is not None:
+            raise Violation("peer-error", f"independent peer failed on the SUT's stream: {peer.error!r}")
+        if bytes(received) != bytes(peer_sent):
+            raise Violation("data-mismatch", f"SUT read {len(received)} bytes, peer wrote {len(peer_sent)}", direction="peer->sut")
+        if bytes(peer.plain_in) != bytes(sut_sent):
+            raise Violation("data-mismatch", f"peer read {len(peer.plain_in)} bytes, SUT wrote {len(sut_sent)}", direction="sut->peer")
+        cipher = bytes(pipe.all_from_sut)
+        i = 0
+        for op, n in case["steps"]:
+            if op == "sut_send":
+                p = tlspeer.payload("sut", i, n)
+                i += 1
+                if n >= 16 and p[:16] in cipher:
+                    raise Violation("plaintext-on-wire", "application bytes were written to the socket unencrypted")
+        if not peer.zero_return:
+            raise Violation("no-close-notify", "standard-compatible close() did not send close_notify")
+        if not transport.is_closed():
+            raise Violation("not-closed", "transport not closed after close()")
+        both = bool(sut_sent) and bool(peer_sent)
+        split = pipe.deliveries >= 3 and min(frag) < 1000
+        classes = [f"role-{case['sut_role']}", f"tls-{case['version']}", case["recv_mode"]]
+        if both:
+            classes.append("both-directions")
+        if split:
+            classes.append("record-split")
+        return Outcome(nontrivial=both and split, classes=tuple(classes))
+    finally:
+        if transport is not None:
+            try:
+                pipe.sut_sock.close()
+            except OSError:
+                pass
+        pipe.close()
+
+
 CHECK = Check(
     id="C08",
     level="exploration",
@@ -218,7 +359,10 @@ CHECK = Check(
         "interleaving x send_all vs send_all_from_iterable x recv vs recv_into sizes; non-trivial = both directions carry "
         "data and ciphertext to the SUT is fragmented below record size over >= 2 deliveries; distinct = sha1(case)"
     ),
-    layers=[Layer("async", st_async_case, run_async_case, {"quick": 250, "thorough": 1500})],
+    layers=[
+        Layer("async", st_async_case, run_async_case, {"quick": 250, "thorough": 1500}),
+        Layer("sync", st_sync_case, run_sync_case, {"quick": 150, "thorough": 1000}),
+    ],
     assumptions=[
         "peer is the stdlib ssl.SSLObject (OpenSSL) driven over MemoryBIO by the harness; the wrapped transport is the in-memory MemStreamTransport on the real asyncio backend with a virtual clock",
         "plaintext search uses the first 16 bytes of each SHA-256-derived payload of at least 16 bytes",
